@@ -206,6 +206,14 @@ class RangeIt:
         return 'RangeIt(%s,%s)' % (self.start, self.end)
 
 
+class SubSlice:
+    """`slice[lo..hi]` (linear forms)."""
+    def __init__(self, lo, hi, mut):
+        self.lo, self.hi, self.mut = lo, hi, mut
+    def __repr__(self):
+        return 'SubSlice(%s,%s)' % (self.lo, self.hi)
+
+
 class CheckedSub:
     """Option<usize> returned by a.checked_sub(b): Some(a-b) iff b <= a."""
     def __init__(self, a, b):
@@ -342,7 +350,7 @@ class LoopInterp:
             if e == 'deref':
                 if isinstance(v, CellRef):
                     v = Num(st.cells[v.k])
-                elif isinstance(v, (SliceRef, ConvRef, SlotRef, MURef, RangeIt)):
+                elif isinstance(v, (SliceRef, ConvRef, SlotRef, MURef, RangeIt, SubSlice)):
                     pass   # deref of a reference we model by the reference itself
                 else:
                     v = Opaque('deref')
@@ -463,6 +471,10 @@ class LoopInterp:
                     return En('Result', rv['variant'], fields[0] if fields else None)
                 if a == 'core::ops::range::Range' and len(fields) == 2 and all(isinstance(f, Num) and f.lf is not None for f in fields):
                     return RangeIt(fields[0].lf, fields[1].lf)
+                if a == 'core::ops::range::RangeTo' and len(fields) == 1 and isinstance(fields[0], Num) and fields[0].lf is not None:
+                    return RangeIt(('0', 0), fields[0].lf)
+                if a == 'core::ops::range::RangeFrom' and len(fields) == 1 and isinstance(fields[0], Num) and fields[0].lf is not None:
+                    return RangeIt(fields[0].lf, ('n', 0))
                 return En(a, rv.get('variant'), fields[0] if len(fields) == 1 else Tup(fields))
             return Opaque('aggregate')
         if k == 'discr':
@@ -717,6 +729,38 @@ class LoopInterp:
             return self.call(st, bb, t, work)
         raise CUnanalysable('terminator %s' % k)
 
+    def apply_closure(self, st, cl_op, arg, where):
+        """Value of `closure(arg)` for a capture-less closure built on the spot (e.g. the pointer cast in
+        `.map(|last| &mut *(last as *mut T).cast::<U>())`): its body is interpreted with the same state."""
+        defs = local_defs(self.b)
+        c = trace_value(self.b, defs, cl_op)[-1]
+        if not (c[0] == 'rv' and c[1].get('ak') == 'closure' and not c[1]['fields']):
+            raise CUnanalysable('cannot see through the closure applied at %s' % where)
+        cb = self.crate.lookup(c[1]['closure']) if getattr(self, 'crate', None) is not None else None
+        if cb is None:
+            raise CUnanalysable('closure body not found at %s' % where)
+        sub = LoopInterp(self.ctx, cb, [], None, None, self.label)
+        sub.roles = self.roles
+        sub.crate = self.crate
+        sub.quiet = getattr(self, 'quiet', False)
+        sub.obl = self.obl
+        sub.exits = []
+        saved = st.L
+        st.L = {1: Opaque('closure env'), 2: arg}
+        work = []
+        bb = 0
+        for _ in range(200):
+            nxt = sub.block(st, bb, work)
+            if nxt is None:
+                break
+            bb = nxt
+        if work or len(sub.exits) != 1 or sub.exits[0][0] != 'return':
+            st.L = saved
+            raise CUnanalysable('the closure applied at %s branches or can unwind' % where)
+        ret = st.L.get(0)
+        st.L = saved
+        return ret
+
     def take(self, st, idx, where):
         """slot `idx` becomes an owned T (O2/O4): it must be the first live input and must
         already be outside the T region as the counters describe it"""
@@ -759,6 +803,46 @@ class LoopInterp:
             ret = CheckedSub(args[0].lf, args[1].lf)
         elif (decl or '').endswith('IntoIterator::into_iter') and args and isinstance(args[0], RangeIt):
             ret = args[0]
+        elif p in ('core::slice::<impl [T]>::get', 'core::slice::<impl [T]>::get_mut') and len(args) == 2 and isinstance(args[0], SliceRef) and isinstance(args[1], Num) and args[1].lf is not None:
+            # slice.get(i): Some(&slice[i]) exactly when i < len
+            if t['t'] is None or t['dest']['p']:
+                raise CUnanalysable('slice.get at %s' % where)
+            idx = args[1].lf
+            s_none = st.fork()
+            s_none.dbm.assume_le(('n', 0), idx)
+            if s_none.dbm.consistent():
+                s_none.L[t['dest']['l']] = En('Option', 'None', None)
+                work.append((s_none, t['t'], False))
+            st.dbm.assume_lt(idx, ('n', 0))
+            if not st.dbm.consistent():
+                return None
+            st.L[t['dest']['l']] = En('Option', 'Some', SlotRef(idx, 'T', p.endswith('get_mut')))
+            return t['t']
+        elif (decl or '') in ('core::ops::index::Index::index', 'core::ops::index::IndexMut::index_mut') and len(args) == 2 and isinstance(args[0], SliceRef) and isinstance(args[1], RangeIt):
+            r = args[1]
+            # out of range panics: an unwind edge unless the bounds are proved
+            if not (st.dbm.le(r.start, r.end) and st.dbm.le(r.end, ('n', 0))):
+                can_unwind = True
+            ret = SubSlice(r.start, r.end, decl.endswith('index_mut'))
+        elif p in ('core::slice::<impl [T]>::last_mut', 'core::slice::<impl [T]>::last') and args and isinstance(args[0], SubSlice):
+            ss = args[0]
+            if t['t'] is None or t['dest']['p']:
+                raise CUnanalysable('last() at %s' % where)
+            s_none = st.fork()
+            s_none.dbm.assume_le(ss.hi, ss.lo)
+            if s_none.dbm.consistent():
+                s_none.L[t['dest']['l']] = En('Option', 'None', None)
+                work.append((s_none, t['t'], False))
+            st.dbm.assume_lt(ss.lo, ss.hi)
+            if not st.dbm.consistent():
+                return None
+            st.L[t['dest']['l']] = En('Option', 'Some', SlotRef(lf_add(ss.hi, -1), 'T', p.endswith('last_mut') and ss.mut))
+            return t['t']
+        elif p == 'core::option::Option::<T>::map' and len(args) == 2 and isinstance(args[0], En) and args[0].kind == 'Option' and args[0].variant is not None:
+            if args[0].variant == 'None':
+                ret = En('Option', 'None', None)
+            else:
+                ret = En('Option', 'Some', self.apply_closure(st, t['args'][1], args[0].payload, where))
         elif (decl or '').endswith('Iterator::next') and args and isinstance(args[0], RangeIt) and 'Range<' in (p or ''):
             r = args[0]
             home = [l for l, v in st.L.items() if v is r and (self.b.local_ty(l) or '').startswith('core::ops::range::Range<')]
@@ -827,6 +911,8 @@ class LoopInterp:
             if not isinstance(tup, Tup) or len(tup.items) != 2:
                 raise CUnanalysable('converter arguments at %s' % where)
             tv, ov = tup.items
+            if isinstance(ov, En) and ov.kind == 'Option' and ov.variant is not None:
+                ov = Opt(ov.payload if ov.variant == 'Some' else None)
             st.events.append(('convert', where))
             if not isinstance(tv, Taken):
                 self.fail('O3', ['C08'], where, 'the converter does not receive the owned input element', 'conv-arg0')
@@ -932,6 +1018,7 @@ def run(ctx, crate, label):
 
 def loop_rules(ctx, crate, body, info, conv, label):
     li = LoopInterp(ctx, body, info['cell_fields'], info['slice_field'], info['conv_field'], label)
+    li.crate = crate
     try:
         li.infer_roles()
     except CUnanalysable:
@@ -1117,7 +1204,39 @@ def outer_rules(ctx, crate, b, conv, label):
             ctx.add(['C08', 'C09'], 'O1', b.span(), 'counter local _%d is not initialised exactly once with 0' % l, key='init-%d' % k)
         else:
             ctx.inst('O1', 'counter _%d initialised to 0 once [%s]' % (l, label))
-    # the slice is as_mut_slice of the ManuallyDrop'd Vec
+    # the slice the loop works on is the whole buffer of the wrapped input vector:
+    # `wrapper.as_mut_slice()` / `&mut wrapper[..]` or `from_raw_parts_mut(wrapper.as_mut_ptr(), wrapper.len())`
+    def of_wrapper(op, names):
+        cur = op
+        for _ in range(10):
+            s_ = trace_value(b, defs, cur)[-1]
+            if s_[0] == 'ref' and not s_[2]['p']:
+                return s_[2]['l'] == md_local
+            if s_[0] != 'call':
+                return False
+            pp = callee_path(s_[1]) or ''
+            if names is not None and any(pp.endswith('::' + n) for n in names):
+                return of_wrapper(s_[1]['args'][0], None)
+            if 'Deref' in pp or pp.endswith('::deref') or pp.endswith('::deref_mut') or pp.endswith('::cast'):
+                cur = s_[1]['args'][0]
+                continue
+            return False
+        return False
+    sl_src = trace_value(b, defs, loop_c['fields'][slice_field])
+    root = sl_src[-1]
+    if root[0] == 'ref' and root[2]['p'] == ['deref']:
+        root = trace_value(b, defs, {'copy': {'l': root[2]['l'], 'p': [], 'ty': None}})[-1]
+    slice_ok = False
+    if root[0] == 'call':
+        rp = callee_path(root[1]) or ''
+        if rp.endswith('::as_mut_slice') or 'DerefMut' in rp or rp.endswith('::deref_mut'):
+            slice_ok = of_wrapper(root[1]['args'][0], None)
+        elif rp.endswith('slice::from_raw_parts_mut') or rp.endswith('slice::raw::from_raw_parts_mut'):
+            slice_ok = of_wrapper(root[1]['args'][0], ['as_mut_ptr']) and of_wrapper(root[1]['args'][1], ['len'])
+    if not slice_ok:
+        ctx.add(['C08', 'C09'], 'O5', b.span(), 'the slice the conversion loop works on is not the whole buffer of the wrapped input vector (%s)' % (callee_path(root[1]) if root[0] == 'call' else root[0]), key='slice-origin')
+    else:
+        ctx.inst('O5', 'the loop works on the whole buffer of the wrapped input [%s]' % label)
     info['t_cu'] = t_cu
     info['bb_cu'] = bb_cu
     # cleanup closure = the other closure
@@ -1161,6 +1280,58 @@ def cleanup_rules(ctx, crate, info, conv, label):
             chain_ok = True
         elif src == md:
             chain_ok = True
+    def md_call(op, names):
+        """operand <- `<names>(&[mut] *wrapper)` (through Deref / casts)?"""
+        cur = op
+        for _ in range(10):
+            s_ = trace_value(b, defs, cur)[-1]
+            if s_[0] != 'call':
+                return False
+            pp = callee_path(s_[1]) or ''
+            if any(pp.endswith('::' + n) for n in names):
+                r_ = trace_value(b, defs, s_[1]['args'][0])
+                root_ = r_[-1]
+                # the receiver: (a Deref of) the wrapper local
+                for _ in range(4):
+                    if root_[0] == 'call' and ('Deref' in (callee_path(root_[1]) or '') or (callee_path(root_[1]) or '').endswith('::deref_mut') or (callee_path(root_[1]) or '').endswith('::deref')):
+                        root_ = trace_value(b, defs, root_[1]['args'][0])[-1]
+                        continue
+                    break
+                return root_[0] == 'ref' and not root_[2]['p'] and root_[2]['l'] == md
+            if pp.endswith('::cast') or pp.endswith('::cast_mut') or pp.endswith('::cast_const'):
+                cur = s_[1]['args'][0]
+                continue
+            return False
+        return False
+
+    def counter_of(op):
+        l_ = op_local(op)
+        for _ in range(6):
+            if l_ is None:
+                return None
+            if l_ in (p_local, q_local):
+                return l_
+            d_ = single_def(defs, l_)
+            l_ = op_local(d_[3]['rv']['op']) if d_ and d_[0] == 'stmt' and d_[3]['rv']['k'] == 'use' else None
+        return None
+
+    raw_ok = None
+    if not chain_ok and st[-1][0] == 'call' and (callee_path(st[-1][1]) or '').startswith('alloc::vec::Vec::<T>::from_raw_parts'):
+        # the vector was taken apart (pointer, capacity) and is put back together around the same buffer
+        c_ = st[-1][1]
+        ptr_ok = md_call(c_['args'][0], ['as_mut_ptr', 'as_ptr'])
+        cap_ok = md_call(c_['args'][2], ['capacity'])
+        cnt = counter_of(c_['args'][1])
+        raw_ok = ptr_ok and cap_ok
+        if raw_ok:
+            chain_ok = True
+            disc('O5', fmt_span(c_['span']), 'result = Vec::from_raw_parts(buffer of `input` as *mut U, _, capacity of `input`): same allocation and capacity')
+            if cnt != p_local:
+                which = 'the consumed counter' if cnt == q_local else 'something else'
+                ctx.add(['C08'], 'O5', fmt_span(c_['span']), 'the rebuilt vector gets %s as its length instead of the produced counter: the result would expose slots that hold no output' % which, key='set-len-arg')
+            else:
+                disc('O5', fmt_span(c_['span']), 'length of the rebuilt vector = produced')
+                ctx.inst('O5', 'from_raw_parts(.., produced, ..) [%s]' % label)
     if not chain_ok:
         ctx.add(['C08'], 'O5', fmt_span(ret_ok[1].get('span')), 'the returned Vec<U> is not the transmuted input allocation (ManuallyDrop::into_inner of the wrapper of `input`)', key='same-alloc')
     else:
@@ -1175,7 +1346,9 @@ def cleanup_rules(ctx, crate, info, conv, label):
         per = [[(bb, t) for bb, t, av in pt['calls'] if callee_path(t) == 'alloc::vec::Vec::<T, A>::set_len'] for pt in sp]
         if sp and all(len(x) == 1 for x in per) and len({id(x[0][1]) for x in per}) == 1:
             sl = per[0]
-    if len(sl) != 1:
+    if raw_ok:
+        pass
+    elif len(sl) != 1:
         ctx.add(['C08'], 'O5', b.span(), 'the success arm calls set_len %d times before returning' % len(sl), key='set-len-count')
     else:
         a = trace_value(b, defs, sl[0][1]['args'][1])
@@ -1215,6 +1388,23 @@ def cleanup_rules(ctx, crate, info, conv, label):
             tgt = md
         return tgt == md or l0 == md
 
+    def is_release_raw(t):
+        """`drop(Vec::from_raw_parts(buffer, 0, capacity))`: the allocation given back with no element in it"""
+        if not (callee_path(t) or '').startswith('alloc::vec::Vec::<T>::from_raw_parts') or t['dest']['p']:
+            return False
+        if op_int(t['args'][1]) != 0 or not md_call(t['args'][0], ['as_mut_ptr', 'as_ptr']) or not md_call(t['args'][2], ['capacity']):
+            return False
+        dl = t['dest']['l']
+        for blk in b.blocks:
+            tt = blk['term']
+            if tt['k'] == 'drop' and tt['place']['l'] == dl and not tt['place']['p'] and not blk['cleanup']:
+                return True
+            if tt['k'] == 'call' and callee_path(tt) == 'core::mem::drop' and tt['args']:
+                s_ = trace_value(b, defs, tt['args'][0])[-1]
+                if s_[0] == 'call' and s_[1] is t:
+                    return True
+        return False
+
     def is_cleanup_call(t):
         p = callee_path(t) or ''
         return p == cleanup_path
@@ -1247,6 +1437,10 @@ def cleanup_rules(ctx, crate, info, conv, label):
             i_clean = [i for i, (bb, t, av) in enumerate(seq) if is_cleanup_call(t)]
             i_len0 = [i for i, (bb, t, av) in enumerate(seq) if callee_path(t) == 'alloc::vec::Vec::<T, A>::set_len' and op_int(t['args'][1]) == 0]
             i_rel = [i for i, (bb, t, av) in enumerate(seq) if is_release(t)]
+            i_raw = [i for i, (bb, t, av) in enumerate(seq) if is_release_raw(t)]
+            if i_raw and not i_rel:
+                i_rel = i_raw
+                i_len0 = i_len0 + [i - 0.5 for i in i_raw]     # rebuilt with length 0
             if len(i_clean) != 1:
                 ctx.add(['C09'], 'O6', where, 'the %s path calls the cleanup routine %d times' % (arm, len(i_clean)), key='cleanup-call-%s' % arm)
             else:
